@@ -111,6 +111,10 @@ type Sym struct {
 	// InlineSamePkg also inlines value-producing helpers of the crypto forks
 	// when the root function is in the same package.
 	InlineSamePkg bool
+	// for closure bodies: the evaluator of the enclosing activation and the
+	// MakeClosure instruction, to resolve captured locals
+	outer   *Sym
+	outerAt ssa.Instruction
 }
 
 func (p *Prog) NewSym(fn *ssa.Function) *Sym {
@@ -271,7 +275,7 @@ func (s *Sym) eval(v ssa.Value) *Term {
 		}
 		return T("alloc", v.Name()+"@"+shortName(v.Parent()))
 	case *ssa.MakeSlice:
-		return T("make", "", s.Of(v.Len))
+		return s.evalMake(v)
 	case *ssa.MakeMap:
 		return T("makemap", v.Name()+"@"+shortName(v.Parent()))
 	case *ssa.MakeClosure:
@@ -451,22 +455,80 @@ func catTerms(parts ...*Term) *Term {
 
 // ---- memory ----
 
-// defsOf lists the instructions that may define the content of alloc a:
-// stores to it, and calls receiving its address.
-func defsOf(a *ssa.Alloc) (defs []ssa.Instruction, fieldStores bool) {
+// aliasesOf: SSA values that are the same pointer as alloc a: a itself and
+// loads of spill cells whose only stored value is a.
+func aliasesOf(a *ssa.Alloc) []ssa.Value {
+	out := []ssa.Value{a}
 	for _, r := range *a.Referrers() {
-		switch r := r.(type) {
-		case *ssa.Store:
-			if r.Addr == a {
-				defs = append(defs, r)
+		st, ok := r.(*ssa.Store)
+		if !ok || st.Val != a {
+			continue
+		}
+		cell, ok := st.Addr.(*ssa.Alloc)
+		if !ok {
+			continue
+		}
+		n := 0
+		for _, cr := range *cell.Referrers() {
+			if cs, ok := cr.(*ssa.Store); ok && cs.Addr == cell {
+				n++
 			}
-		case ssa.CallInstruction:
-			defs = append(defs, r)
-		case *ssa.FieldAddr, *ssa.IndexAddr:
-			fieldStores = true
+		}
+		if n != 1 {
+			continue
+		}
+		for _, cr := range *cell.Referrers() {
+			if ld, ok := cr.(*ssa.UnOp); ok && ld.Op == token.MUL && ld.X == cell {
+				out = append(out, ld)
+			}
+		}
+	}
+	return out
+}
+
+// defsOf lists the instructions that may define the content of alloc a:
+// stores to it, and calls receiving its address (directly or through a spill).
+func defsOf(a *ssa.Alloc) (defs []ssa.Instruction, fieldStores bool) {
+	for _, al := range aliasesOf(a) {
+		refs := al.Referrers()
+		if refs == nil {
+			continue
+		}
+		for _, r := range *refs {
+			switch r := r.(type) {
+			case *ssa.Store:
+				if r.Addr == al {
+					defs = append(defs, r)
+				}
+			case ssa.CallInstruction:
+				if !readOnlyCall(r) {
+					defs = append(defs, r)
+				}
+			case *ssa.FieldAddr, *ssa.IndexAddr:
+				fieldStores = true
+			}
 		}
 	}
 	return
+}
+
+// readOnlyCall: calls known not to write through their pointer arguments.
+func readOnlyCall(c ssa.CallInstruction) bool {
+	cc := c.Common()
+	if b, ok := cc.Value.(*ssa.Builtin); ok {
+		switch b.Name() {
+		case "len", "cap", "print", "println":
+			return true
+		}
+		return false
+	}
+	if f := cc.StaticCallee(); f != nil {
+		switch f.Name() {
+		case "Type", "TruncatedTokenKeyID", "Equal", "Equals":
+			return InModule(f)
+		}
+	}
+	return false
 }
 
 // closestDominating picks, among defs, the one that dominates `at` and is
@@ -548,8 +610,14 @@ func (s *Sym) load(v *ssa.UnOp) *Term {
 // loadAlloc resolves the content of a local variable at instruction `at`.
 func (s *Sym) loadAlloc(a *ssa.Alloc, at ssa.Instruction) *Term {
 	defs, hasFieldStores := defsOf(a)
+	callReaches := false
+	for _, d := range defs {
+		if _, ok := d.(ssa.CallInstruction); ok && d != at && (dominates(d, at) || reaches(d, at)) {
+			callReaches = true
+		}
+	}
 	// struct assembled field by field (composite literal)
-	if st, ok := deref(a.Type()).Underlying().(*types.Struct); ok && hasFieldStores {
+	if st, ok := deref(a.Type()).Underlying().(*types.Struct); ok && hasFieldStores && !callReaches {
 		if t := s.structLiteral(a, st, at); t != nil {
 			return t
 		}
@@ -576,8 +644,10 @@ func (s *Sym) loadAlloc(a *ssa.Alloc, at ssa.Instruction) *Term {
 		// value written by the call through the pointer
 		idx := -1
 		for i, arg := range d.Common().Args {
-			if arg == a {
-				idx = i
+			for _, al := range aliasesOf(a) {
+				if arg == al {
+					idx = i
+				}
 			}
 		}
 		if d.Common().IsInvoke() {
@@ -591,7 +661,13 @@ func (s *Sym) loadAlloc(a *ssa.Alloc, at ssa.Instruction) *Term {
 
 func (s *Sym) structLiteral(a *ssa.Alloc, st *types.Struct, at ssa.Instruction) *Term {
 	var kvs []*Term
-	for _, r := range *a.Referrers() {
+	var refs []ssa.Instruction
+	for _, al := range aliasesOf(a) {
+		if rr := al.Referrers(); rr != nil {
+			refs = append(refs, *rr...)
+		}
+	}
+	for _, r := range refs {
 		switch r := r.(type) {
 		case *ssa.FieldAddr:
 			var fdefs []ssa.Instruction
@@ -643,7 +719,7 @@ func (s *Sym) structLiteral(a *ssa.Alloc, st *types.Struct, at ssa.Instruction) 
 			}
 		case ssa.CallInstruction:
 			// address escapes to a call (method with pointer receiver): give up
-			if dominates(r, at) || reaches(r, at) {
+			if !readOnlyCall(r) && r != at && (dominates(r, at) || reaches(r, at)) {
 				return nil
 			}
 		}
@@ -659,55 +735,73 @@ func typeShort(t types.Type) string {
 }
 
 // loadField: *(&x.f). Same-function store forwarding when the base is the
-// same SSA value; otherwise the heap location's name.
+// same SSA value; otherwise field f of the object the base designates.
 func (s *Sym) loadField(fa *ssa.FieldAddr, at ssa.Instruction) *Term {
-	if al, ok := fa.X.(*ssa.Alloc); ok {
-		// field of a local struct
-		whole := s.loadAlloc(al, at)
-		fname := fieldName(al.Type(), fa.Field)
-		if whole.Op == "struct" {
-			if f := structField(whole, fname); f != nil {
-				return f
-			}
-			return &Term{Op: "zero", Name: deref(fa.Type()).String()}
-		}
-		if whole.Op != "content" && whole.Op != "zero" {
-			return T("field", fname, whole)
-		}
-	}
-	// stores to the same (base value, field) in this function
-	var defs []ssa.Instruction
-	base := fa.X
-	for _, b := range fa.Parent().Blocks {
-		for _, in := range b.Instrs {
-			st, ok := in.(*ssa.Store)
-			if !ok {
-				continue
-			}
-			if ofa, ok := st.Addr.(*ssa.FieldAddr); ok && ofa.Field == fa.Field && sameBase(ofa.X, base) {
-				defs = append(defs, st)
-			}
-		}
-	}
-	if len(defs) > 0 {
-		if d := closestDominating(defs, at); d != nil {
-			return s.Of(d.(*ssa.Store).Val)
-		}
-		// ambiguous: a store may or may not have happened
-		return T("field", fieldName(fa.X.Type(), fa.Field)+"'", s.pointee(fa.X))
-	}
-	bt := s.pointee(fa.X)
 	fname := fieldName(fa.X.Type(), fa.Field)
+	if _, isAlloc := fa.X.(*ssa.Alloc); !isAlloc {
+		// stores to the same (base value, field) in this function
+		var defs []ssa.Instruction
+		base := fa.X
+		for _, b := range fa.Parent().Blocks {
+			for _, in := range b.Instrs {
+				st, ok := in.(*ssa.Store)
+				if !ok {
+					continue
+				}
+				if ofa, ok := st.Addr.(*ssa.FieldAddr); ok && ofa.Field == fa.Field && sameBase(ofa.X, base) {
+					defs = append(defs, st)
+				}
+			}
+		}
+		if len(defs) > 0 {
+			if d := closestDominating(defs, at); d != nil {
+				return s.Of(d.(*ssa.Store).Val)
+			}
+			// ambiguous: a store may or may not have happened
+			return T("field", fname+"'", s.pointeeAt(fa.X, at))
+		}
+	}
+	bt := s.pointeeAt(fa.X, at)
 	if bt.Op == "struct" {
 		if f := structField(bt, fname); f != nil {
 			return f
 		}
+		return &Term{Op: "zero", Name: deref(fa.Type()).String()}
 	}
 	return T("field", fname, bt)
 }
 
-// pointee: the term of the object a pointer value designates. Heap objects
-// are named by the pointer's own term (p.f reads as field of p).
+// pointeeAt: the term of the object that pointer value v designates, as seen
+// at instruction `at`. Local variables are resolved to their reaching
+// definition; other heap objects are named by the pointer's own term.
+func (s *Sym) pointeeAt(v ssa.Value, at ssa.Instruction) *Term {
+	switch v := v.(type) {
+	case *ssa.Alloc:
+		if v.Parent() == at.Parent() {
+			return s.loadAlloc(v, at)
+		}
+	case *ssa.FieldAddr:
+		return s.loadField(v, at)
+	}
+	t := s.Of(v)
+	switch t.Op {
+	case "cell", "ref":
+		return t.Args[0]
+	case "alloc":
+		if al, ok := t.Src.(*ssa.Alloc); ok {
+			if al.Parent() == at.Parent() {
+				return s.loadAlloc(al, at)
+			}
+			for o, oat := s.outer, s.outerAt; o != nil; o, oat = o.outer, o.outerAt {
+				if al.Parent() == o.fn && oat != nil {
+					return o.loadAlloc(al, oat)
+				}
+			}
+		}
+	}
+	return t
+}
+
 func (s *Sym) pointee(v ssa.Value) *Term {
 	t := s.Of(v)
 	switch t.Op {
@@ -1072,6 +1166,10 @@ func (s *Sym) closureBuilder(v ssa.Value) *Term {
 		return T("unknown", "continuation is not a function literal")
 	}
 	c := s.child(fn)
+	c.outer = s
+	if in, ok := v.(ssa.Instruction); ok {
+		c.outerAt = in
+	}
 	for i, fv := range fn.FreeVars {
 		if i < len(bindings) {
 			// the binding is the address of the captured variable (an Alloc
@@ -1250,4 +1348,46 @@ func (s *Sym) allocLiteral(a *ssa.Alloc) *Term {
 	}
 	sort.Slice(kvs, func(i, j int) bool { return kvs[i].Name < kvs[j].Name })
 	return T("ref", "", &Term{Op: "struct", Name: typeShort(deref(a.Type())), Args: kvs})
+}
+
+// evalMake: a fresh buffer. If exactly one instruction fills it (copy into it,
+// or a call receiving it), the filler is part of the term.
+func (s *Sym) evalMake(v *ssa.MakeSlice) *Term {
+	ln := s.Of(v.Len)
+	var fillers []*Term
+	for _, r := range *v.Referrers() {
+		ci, ok := r.(ssa.CallInstruction)
+		if !ok {
+			continue
+		}
+		cc := ci.Common()
+		if b, ok := cc.Value.(*ssa.Builtin); ok {
+			switch b.Name() {
+			case "copy":
+				if cc.Args[0] == v {
+					fillers = append(fillers, T("copy", "", s.Of(cc.Args[1])))
+				}
+			}
+			continue
+		}
+		var args []*Term
+		if cc.IsInvoke() {
+			args = append(args, s.Of(cc.Value))
+		}
+		for _, a := range cc.Args {
+			if a == v {
+				args = append(args, T("const", "dst"))
+			} else {
+				args = append(args, s.Of(a))
+			}
+		}
+		fillers = append(fillers, &Term{Op: "fill", Name: calleeName(cc), Args: args, Site: ci})
+	}
+	if len(fillers) == 1 {
+		return T("make", "", ln, fillers[0])
+	}
+	if len(fillers) > 1 {
+		return T("make", "", ln, T("opaque", fmt.Sprintf("%d fillers of %s", len(fillers), v.Name())))
+	}
+	return T("make", "", ln)
 }
